@@ -81,9 +81,10 @@ SRC = {
     "C01": "TheFittest._replace, TheFittest._update (= Rec.update)",
     "C02": "TheFittest._update (= Rec.update; the record never decreases)",
     "C03": "TheFittest._update (stagnation counter), _termitation_check (= Cfg.stop), get_remains_calls (= Cfg.remains)",
-    "C06": "flip_mutation, binomialGA, one_point_crossover, two_point_crossover, uniform_crossover (random draws as explicit streams)",
+    "C06": "flip_mutation, binomialGA, one_point / two_point / uniform / uniform_proportional / uniform_rank / empty crossover (random draws as explicit streams)",
     "C07": "bounds_control (coordinate-wise clamp), binomial",
-    "C09": "find_end_subtree_from_i, find_id_args_from_i, find_first_difference_between_two, common_region_two_trees (equal to the model on every well-formed tree, with no out-of-range access)",
+    "C08": "get_levels_tree_from_i (= levels, for every arity array)",
+    "C09": "find_end_subtree_from_i, find_id_args_from_i, find_first_difference_between_two, common_region_two_trees, Tree.subtree_id / subtree / concat (equal to the model on every well-formed tree, with no out-of-range access)",
     "C11": "binary_search_interval, check_for_value, argsort_k, tournament_selection, sattolo_shuffle, random_sample, random_weighted_sample",
     "C16": "EvolutionaryAlgorithm._get_n_jobs (= normJobs)",
 }
